@@ -471,7 +471,17 @@ func HarnessC01Float() {
 	rF := func(f float64) rv { return rv{kind: rFloat, f: f} }
 	var src string
 	var want rv
-	switch vChoice("shape", 6) {
+	switch vChoice("shape", 8) {
+	case 6, 7:
+		// postfix ++/-- on a float: formatting is involved in the implementation, so the operand comes from a
+		// boundary set instead of being symbolic
+		f := []float64{2.5, 0.5, -1.5, 0, -0.25, 1e21, 3}[vChoice("f", 7)]
+		data["f"] = f
+		if vChoice("dir", 2) == 0 {
+			src, want = "f++", rF(f+1)
+		} else {
+			src, want = "f--", rF(f-1)
+		}
 	case 0:
 		lx, op := symOperator("op")
 		src = "a " + lx + " b"
